@@ -18,7 +18,7 @@ MANIFEST = {
     'note': 'Trusted: ref/wbeval.py for values. Text-that-looks-like-a-formula can only enter through string cells of a file (the dictionary format defines "=..." as a formula).',
 }
 RULE = 'case = (workbook, sheet renaming, constant kinds, path) or one formula tree; non-trivial = exported and re-imported; distinct = case key'
-ASSUMPTIONS = ['unresolved items (unknown functions, missing sheets) in round trips are judged by C14; here only that export/import does not raise on them']
+ASSUMPTIONS = ['unresolved items (unknown functions, undefined names, #REF! literals): here only that the round trip neither raises nor changes any value; what the values are is C14\'s subject']
 
 SHEETNAMES = ['S', 'Data 1', "It's", 'x-y', '1st', 'a.b', 'Über', 'lower', 'A1', 'TRUE']
 TEXTS = [('formula-like', '=1+1'), ('quote', 'say "hi"'), ('apostrophe', "it's"), ('empty', ''), ('eq', '='), ('space', ' pad '), ('hash', '#EMPTY'), ('err-like', '#N/A x'),
@@ -178,11 +178,57 @@ def run_tree(case):
     return result(4, ['tree:' + ('ok' if not fails else 'fail')], fails)
 
 
+# ----------------------------------------------------------- unresolved items
+RAW = {
+    'unknown-function': {"'[b.xlsx]S'!A1": 2, "'[b.xlsx]S'!B1": "=NOSUCHFUNC('[b.xlsx]S'!A1)+1", "'[b.xlsx]S'!C1": "=IFERROR('[b.xlsx]S'!B1,5)", "'[b.xlsx]S'!D1": "='[b.xlsx]S'!A1*3"},
+    'xlfn-function': {"'[b.xlsx]S'!A1": 2, "'[b.xlsx]S'!B1": "=_xlfn.NEWFUNC('[b.xlsx]S'!A1)", "'[b.xlsx]S'!C1": "=ISERROR('[b.xlsx]S'!B1)"},
+    'undefined-name': {"'[b.xlsx]S'!A1": 2, "'[b.xlsx]S'!B1": "='[b.xlsx]'!NO_SUCH_NAME+'[b.xlsx]S'!A1", "'[b.xlsx]S'!C1": "=IFERROR('[b.xlsx]S'!B1,5)"},
+    'ref-literal': {"'[b.xlsx]S'!A1": 2, "'[b.xlsx]S'!B1": "=#REF!+'[b.xlsx]S'!A1", "'[b.xlsx]S'!C1": "=IFERROR('[b.xlsx]S'!B1,\"r\")", "'[b.xlsx]S'!D1": "=SUM('[b.xlsx]S'!A1:B1)"},
+    'other-sheet-unpopulated': {"'[b.xlsx]S'!A1": 2, "'[b.xlsx]S'!B1": "='[b.xlsx]T'!Z9+'[b.xlsx]S'!A1", "'[b.xlsx]S'!C1": "=ISBLANK('[b.xlsx]T'!Z9)"},
+    'defined-names': {"'[b.xlsx]S'!A1": 2, "'[b.xlsx]S'!A2": 3, "'[b.xlsx]'!TOTAL": "=SUM('[b.xlsx]S'!A1:A2)", "'[b.xlsx]'!FIRST": "='[b.xlsx]S'!A1",
+                      "'[b.xlsx]S'!B1": "='[b.xlsx]'!TOTAL*'[b.xlsx]'!FIRST", "'[b.xlsx]'!BOTH": "='[b.xlsx]S'!A1:A2", "'[b.xlsx]S'!B2": "=SUM('[b.xlsx]'!BOTH)"},
+    'hex-and-arrays': {"'[b.xlsx]S'!A1": 255, "'[b.xlsx]S'!B1": "=DEC2HEX('[b.xlsx]S'!A1)", "'[b.xlsx]S'!C1:D2": "={1,2;3,4}*'[b.xlsx]S'!A1", "'[b.xlsx]S'!E1": "=SUM('[b.xlsx]S'!C1:D2)"},
+}
+
+
+def run_raw(case):
+    import formulas
+    import numpy as np
+    from xl.evalcell import classify_array, exc_name
+    _, name = case
+    fails = []
+    desc = dict(wb=name, path='dict', sheet='S', const=None)
+
+    def canon(sol):
+        return {k: classify_array(np.asarray(v.value, object)) for k, v in sol.items() if isinstance(k, str) and hasattr(v, 'value')}
+    try:
+        m = formulas.ExcelModel().from_dict(dict(RAW[name]))
+        base = canon(m.calculate())
+        texts, cur = [], m
+        for trip in (1, 2, 3):
+            t = json.dumps(cur.to_dict(), sort_keys=True)
+            texts.append(t)
+            cur = formulas.ExcelModel().from_dict(json.loads(t))
+            got = canon(cur.calculate())
+            diff = [k for k in base if got.get(k) != base[k]]
+            if diff:
+                fails.append(Fail('value-changed', got='%s=%s' % (diff[0], got.get(diff[0])), exp='%s=%s' % (diff[0], base[diff[0]]), trip=trip, **desc))
+                break
+        if len(set(texts)) != 1 and not fails:
+            fails.append(Fail('export-drift', got=texts[-1][:200], exp=texts[0][:200], **desc))
+    except Exception as e:
+        fails.append(Fail('roundtrip-escape', got='%s:%s' % (exc_name(e), str(e)[:100]), exp='export and import succeed', **desc))
+    return result(7, ['raw:%s:%s' % (name, 'ok' if not fails else 'fail')], fails)
+
+
 def run_case(case):
+    if case[0] == 'raw':
+        return run_raw(case)
     return run_wb(case) if case[0] == 'wb' else run_tree(case)
 
 
 def run(ctx):
     ctx.explore(run_case, wb_cases(ctx.tier), chunksize=4, label='workbook_roundtrips')
     ctx.explore(run_case, tree_cases(ctx.tier), chunksize=128, label='formula_reparse')
+    ctx.explore(run_case, (['raw', n] for n in RAW), chunksize=1, label='unresolved_items_and_names')
     return {}
